@@ -1000,6 +1000,64 @@ pub fn one_case(idx: usize, long_every: usize, r: &mut Rng, silent: &Arc<Mutex<O
             id_wrap = Some("a refused ReadBufPool::new changed what this pool offers to the kernel".into());
         }
     }
+    // One case in 40: a second ring with a pool of its own. A read on a descriptor of THAT ring with
+    // a buffer of THIS pool names this pool's buffer group, which the other ring does not have: it
+    // must fail (ENOBUFS) and leave both pools alone — buffer group ids are unique in the process.
+    let mut two_rings: Option<String> = None;
+    let mut tried_two_rings = false;
+    if !huge && idx % 40 == 17 {
+        tried_two_rings = true;
+        simk::configure(simk::SetupConfig { sq_start: r.next() as u32, cq_start: r.next() as u32, ..Default::default() });
+        let mut ring_b = a10::Ring::config().with_submission_queue_size(8).build().expect("second ring on the simulated kernel");
+        let fd_b = simk::with(|s| s.fd);
+        let sq_b = ring_b.sq();
+        let pool_b = ReadBufPool::new(sq_b.clone(), 2, size as u32).expect("pool of the second ring");
+        simk::add_fake_fd(fake_fd(90));
+        let afd = ManuallyDrop::new(unsafe { a10::AsyncFd::from_raw_fd(fake_fd(90), sq_b.clone()) });
+        {
+            let waker = std::task::Waker::noop();
+            let mut ctx = std::task::Context::from_waker(waker);
+            let mut fut = Box::pin(afd.read(pool.get()));
+            let _ = fut.as_mut().poll(&mut ctx);
+            let _ = ring_b.poll(Some(std::time::Duration::ZERO));
+            let served = simk::with_fd(fd_b, |s| {
+                let Some(q) = s.inflight.iter().find(|q| q.sqe.fd == fake_fd(90)).map(|q| (q.req, q.sqe.buf_index)) else { return None };
+                match s.pbuf_pick(q.1) {
+                    Some((bid, addr, len)) => {
+                        for k in 0..3usize.min(len as usize) {
+                            unsafe { (addr as *mut u8).add(k).write(0xB0 + k as u8) };
+                        }
+                        s.complete(q.0, 3.min(len as i32), abi::CQE_F_BUFFER | ((bid as u32) << abi::CQE_BUFFER_SHIFT));
+                        Some((true, q.1, bid))
+                    }
+                    None => {
+                        s.complete(q.0, -libc::ENOBUFS, 0);
+                        Some((false, q.1, 0))
+                    }
+                }
+            })
+            .flatten();
+            let _ = ring_b.poll(Some(std::time::Duration::ZERO));
+            let res = fut.as_mut().poll(&mut ctx);
+            match (served, res) {
+                (Some((true, group, bid)), std::task::Poll::Ready(Ok(buf))) => {
+                    two_rings = Some(format!(
+                        "a read on a descriptor of a second ring with a buffer of this pool was served from the second ring's own pool (both pools have buffer group id {group}): the ReadBuf handed out claims buffer {bid} of THIS pool, which the kernel of this ring still offers or another ReadBuf owns ({} bytes)",
+                        buf.len()
+                    ));
+                    std::mem::forget(buf);
+                }
+                (Some((true, group, _)), _) => two_rings = Some(format!("two live pools of the process share buffer group id {group}")),
+                (Some((false, _, _)), std::task::Poll::Ready(Err(_))) => {}
+                (s, other) => two_rings = Some(format!("read across rings: kernel side {s:?}, future {:?}", other.map(|x| x.map(|b| b.len())))),
+            }
+        }
+        drop(pool_b);
+        drop(sq_b);
+        drop(ring_b);
+        simk::retire(fd_b);
+        let _ = simk::with_fd(ring_fd, |s| s.take_log());
+    }
     let mut ops = Vec::new();
     for o in 0..NOPS {
         simk::add_fake_fd(fake_fd(o));
@@ -1031,6 +1089,9 @@ pub fn one_case(idx: usize, long_every: usize, r: &mut Rng, silent: &Arc<Mutex<O
     if let Some(m) = id_wrap {
         w.fail(m);
     }
+    if let Some(m) = two_rings {
+        w.fail(m);
+    }
     if first.len() != n || first.iter().enumerate().any(|(i, e)| e.0 as usize != i || e.1 as usize != base + i * size || e.2 as usize != size) {
         w.fail(format!("a new pool of {n} x {size} bytes offers {:?}", first));
     }
@@ -1040,6 +1101,9 @@ pub fn one_case(idx: usize, long_every: usize, r: &mut Rng, silent: &Arc<Mutex<O
     let mut threaded = false;
     if wrapped_ids {
         tags.push("buffer-group-ids-wrapped(65536 other pools)".into());
+    }
+    if tried_two_rings {
+        tags.push("second-ring-with-its-own-pool".into());
     }
 
     if corpus_h26 {
